@@ -609,6 +609,70 @@ pub fn run(tier: Tier) -> Report {
         }
     });
     rep.add_states(dec_cases.len() as u64);
+    // standard mode: inert header flags, CPM/PSBI, PEI and both header kinds on decoded pictures
+    let mut std_cases: Vec<StdHdr> = vec![];
+    for flags in 0..8u8 {
+        for cpm in [None, Some(0u8), Some(3)] {
+            for inter in [false, true] {
+                for q in [1u8, 31] {
+                    let mut h = StdHdr::custom(32, 16, inter, 0x80 | flags, q);
+                    h.split = flags & 4 != 0;
+                    h.doc = flags & 2 != 0;
+                    h.freeze = flags & 1 != 0;
+                    h.plus.as_mut().unwrap().cpm = cpm;
+                    h.plus.as_mut().unwrap().rtype = flags & 1 != 0;
+                    h.pei = if flags & 2 != 0 { vec![flags, 0xEE] } else { vec![] };
+                    std_cases.push(h);
+                    let mut b = StdHdr::baseline(1, inter, 0x40 | flags, q);
+                    b.split = flags & 4 != 0;
+                    b.doc = flags & 2 != 0;
+                    b.freeze = flags & 1 != 0;
+                    b.cpm = cpm;
+                    std_cases.push(b);
+                }
+            }
+        }
+    }
+    std_cases.par_iter().for_each(|h| {
+        let mut d = Dec::new(0);
+        let hdr = Hdr::Std(h.clone());
+        let (w, hh) = hdr.dims().unwrap();
+        let (mbw, mbh) = mb_grid(w, hh);
+        let inter = hdr.pic_type() == PicType::P;
+        let mut st = crate::refdec::CmpStats::default();
+        if inter {
+            let mut i0 = h.clone();
+            i0.inter = false;
+            if let Some(p) = i0.plus.as_mut() {
+                p.mpp_type = 0;
+            }
+            i0.tr = h.tr.wrapping_add(1);
+            let ip = Pic { hdr: Hdr::Std(i0), mbs: (0..mbw * mbh).map(|_| Mb::intra_flat(99)).collect() };
+            let _ = d.step(&ip, "C06", &mut st);
+        }
+        let p = Pic { hdr, mbs: (0..mbw * mbh).map(|i| if !inter || i % 2 == 0 { Mb::intra_flat(60) } else { Mb::NotCoded }).collect() };
+        rep.add_transitions(1);
+        match d.step(&p, "C06", &mut st) {
+            Err(f) => rep.violation(&f.sig, f.what, d.replay("decoded standard-mode picture header")),
+            Ok(None) => rep.violation("C06/decoder-rejects-std", format!("{} rejected", describe(&p)), d.replay("decoded standard-mode picture header")),
+            Ok(Some(_)) => {
+                let s = last_snap(&d.st).unwrap();
+                let want = match h.expect(false, None) {
+                    Verdict::Exact(e) | Verdict::ExactOrErr(e, _) => e,
+                    _ => return,
+                };
+                let want_type = if inter { "PFrame" } else { "IFrame" };
+                if s.tr != want.tr || s.q != want.quantizer || s.options != want.options || s.ptype != want_type || s.version.is_some() || s.dims != Some((w, hh)) {
+                    rep.violation(
+                        "C06/decoded-picture-header-std",
+                        format!("decoded picture reports tr={} q={} options={:#x} type={} size={:?}; its header had tr={} q={} options={:#x} type={want_type} size={w}x{hh}", s.tr, s.q, s.options, s.ptype, s.dims, want.tr, want.quantizer, want.options),
+                        d.replay("decoded standard-mode picture header"),
+                    );
+                }
+            }
+        }
+    });
+    rep.add_states(std_cases.len() as u64);
     // ... also after size changes: every history of intra / predicted / disposable pictures of five
     // shapes (including transposes with identical plane sizes) up to the fixpoint of the state graph
     {
